@@ -2,7 +2,7 @@
    they are compiled once.  A range [s, s + p) is checked by binary recursion on
    the POSITIVE p (no unary numbers, no lists); the three facts are closed by the
    kernel VM.  Domain of each sweep = one 400-year era (146097 days = 4800
-   months), stated in the lemma; Proofs/Civil.v lifts them to all of Z by
+   months = 400 years), stated in the lemma; Proofs/Civil.v lifts them to all of Z by
    periodicity. *)
 From Coq Require Import ZArith Lia Bool.
 From L4 Require Import Model.Civil.
@@ -54,18 +54,18 @@ Definition iso_year (z : Z) : Z :=
   else if iso_year_start (y + 1) <=? z then y + 1
   else y.
 
-Definition iso_ok (z : Z) : bool :=
-  let s := iso_year_start (iso_year z) in
-  (z - weekday_mon z =? s + 7 * iso_week0 z) && (0 <=? iso_week0 z) && (iso_week0 z <=? 52)
-  && (s <=? z) && (z <? iso_year_start (iso_year z + 1)).
+(* an ISO year has exactly iso_weeks_in_year whole weeks *)
+Definition iso_len_ok (y : Z) : bool :=
+  iso_year_start (y + 1) - iso_year_start y =? 7 * iso_weeks_in_year y.
 
 Lemma month_step_era : chk month_step_ok 4800 0 = true.
-Proof. vm_compute. reflexivity. Qed.
+Proof. vm_cast_no_check (eq_refl true). Qed.
 
+Lemma iso_len_era : chk iso_len_ok 400 0 = true.
+Proof. vm_cast_no_check (eq_refl true). Qed.
+
+(* the one big sweep: 146097 days, about 25 s *)
 Lemma civil_ok_era : chk civil_ok 146097 0 = true.
-Proof. vm_compute. reflexivity. Qed.
-
-Lemma iso_ok_era : chk iso_ok 146097 0 = true.
-Proof. vm_compute. reflexivity. Qed.
+Proof. vm_cast_no_check (eq_refl true). Qed.
 
 Global Opaque chk.
